@@ -311,7 +311,30 @@ def run(prog, tier, res):
     rets = sorted(set(rets))
     ww = bw.where()
     r2i_s, y_s, pd_s = short(R2I), short(YMAT), short(PDIM)
-    if len(rets) == 1 and rets[0].startswith("Iterator::collect(Iterator::zip(%s(arg2),vec[push " % R2I):
+    PUSH_FORM = "Iterator::collect(Iterator::zip(%s(arg2),vec[push " % R2I
+    MAP_FORM = "Iterator::collect(Iterator::zip(%s(arg2),Iterator::collect(Iterator::map(Range{0," % R2I      # push loop named as map/collect
+    if len(rets) == 1 and rets[0].startswith(MAP_FORM):
+        res.hit(R5)
+        r = rets[0]
+        ncols = ["%s(arg1,arg2).1" % PDIM, "%s(arg2)" % R2L]
+        cols_ok = any(r.startswith(MAP_FORM + nc + "},|x| ") for nc in ncols)
+        rows_ok = ("Range{0,%s(arg1,arg2).0}" % PDIM) in r or ("Iterator::map(Range{0,Option::<T>::unwrap(Iterator::max(Iterator::map(%s(arg2)," % R2I) in r
+        # the element closure reads entry (row = its argument, column = the captured loop variable) of the captured matrix
+        eclo = [p_ for p_ in prog.bodies if p_.startswith(WRD + "::{closure#") and "promoted" not in p_]
+        read_ok = False
+        for p_ in eclo:
+            cb_ = prog.body(p_)
+            can_ = analysis(prog, cb_)
+            rr = [strip(t_) for _, t_ in can_.ret_assignments()]
+            if len(rr) == 1 and rr[0][0] == "call" and short(rr[0][1]) == "Mat::<E>::read" and len(rr[0][2]) == 3:
+                m_, row_, col_ = [strip(x_) for x_ in rr[0][2]]
+                read_ok = row_ == ("param", 2) and col_[0] == "field" and col_[2] == 1 and m_[0] == "field" and m_[2] == 0
+        cap_ok = ("{&mut(wires::y_matrix(arg1, arg2)), carg0}" in r) or ("y_matrix(arg1, arg2)" in r and ", carg0}" in r)
+        if cols_ok and rows_ok and read_ok and cap_ok:
+            res.hit(R5)
+        else:
+            res.violate(R5, WRD, "column-order", "the k-th solution is not computed from column k of y_matrix(signals, range) over all rows: %s" % r[:300], ww)
+    elif len(rets) == 1 and rets[0].startswith(PUSH_FORM):
         res.hit(R5)
         r = rets[0]
         # the pushed solution of loop column c reads column c of y_matrix(arg1, arg2), c over 0..dims.1
